@@ -663,6 +663,9 @@ func (e *Engine) execFrame(fr *Frame) (result Value) {
 				}
 			case *ssa.Panic:
 				panic(goPanic{e.get(fr, ins.X)})
+			case *ssa.Send:
+				c, _ := e.get(fr, ins.Chan).(*ChanV)
+				e.chanSend(c, e.get(fr, ins.X), true)
 			case *ssa.Store:
 				addr := e.get(fr, ins.Addr)
 				e.store(addr, e.get(fr, ins.Val))
@@ -1080,6 +1083,8 @@ func (e *Engine) eval(fr *Frame, ins ssa.Value) Value {
 		return Slice{A: &arr, Len: n, Cap: c}
 	case *ssa.MakeMap:
 		return newMap()
+	case *ssa.MakeChan:
+		return &ChanV{cap: int(e.Concretize(e.get(fr, ins.Size).(Int)))}
 	case *ssa.MakeInterface:
 		return Iface{T: ins.X.Type(), V: e.get(fr, ins.X)}
 	case *ssa.MakeClosure:
@@ -1329,6 +1334,8 @@ func (e *Engine) typeAssert(ins *ssa.TypeAssert, x Iface) Value {
 
 func (e *Engine) unop(ins *ssa.UnOp, x Value) Value {
 	switch ins.Op {
+	case token.ARROW:
+		return e.evalRecv(ins, x)
 	case token.MUL:
 		return e.load(x)
 	case token.NOT:
@@ -1467,6 +1474,12 @@ func (e *Engine) binop(op token.Token, t types.Type, x, y Value) Value {
 			return Bool{V: x == nil}
 		}
 		return Bool{V: x != nil}
+	case *ChanV:
+		yc, _ := y.(*ChanV)
+		if op == token.EQL {
+			return Bool{V: x == yc}
+		}
+		return Bool{V: x != yc}
 	case Slice:
 		if op == token.EQL {
 			return Bool{V: x.Nil}
